@@ -375,7 +375,9 @@ def pullTombs (src : Site) (c : Cell) (a : PullAcc) : PullAcc :=
       tombs := a.dst.tombs ++ fresh }
     { dst := dst,
       acts := a.acts ++ [.write (fresh.map fun _ => c)
-        (ts.flatMap fun t => [c, { room := t.room, ent := t.ent, day := t.mday }])],
+        ((ts.flatMap fun t => [c, { room := t.room, ent := t.ent, day := t.mday }]) ++
+         -- the day of the version stored locally, whatever version the record names
+         ((a.dst.rows.filter fun r => ts.any fun t => t.n = r.n && t.room = r.room).map cellOf))],
       modified := true, orig := a.orig }
 
 def pullRows (src : Site) (c : Cell) (a : PullAcc) : PullAcc :=
@@ -388,7 +390,7 @@ def pullRows (src : Site) (c : Cell) (a : PullAcc) : PullAcc :=
   else
     let marks := fetched.flatMap fun r =>
       match findRow r.n a.dst.rows with
-      | some old => if old.room ≠ r.room then [{ room := old.room, ent := r.ent, day := old.day }, cellOf r] else [cellOf r]
+      | some old => [{ room := old.room, ent := r.ent, day := old.day }, cellOf r]
       | none => [cellOf r]
     let edges := fetched.flatMap fun r =>
       let oldVer := match findRow r.n a.dst.rows with
